@@ -606,7 +606,8 @@ SPEC = Spec(
         "kinds, raises on a different object with the same name, uses one checker "
         "for all outputs and runs before any renaming. R15-BOUND: data wrappers are "
         "bound under the name of their placeholder with the data object itself; "
-        "user names reach the kernel arguments unchanged."),
+        "user names reach the kernel arguments unchanged. "
+        "R15-SEED-FIRST also: preprocess() tells its generator the name of every named placeholder and size parameter, with no further filter on the name."),
     not_decided=(
         "Collision freedom against names loopy invents later (accumulators, "
         "make_reduction_inames_unique), which live outside this repository."),
